@@ -49,7 +49,7 @@ class BuInit(Contract):
         sized = compare("!=", binop("&", c, 2), 0)
         size_ok = ite(sized, S.eq(st.get("size"), S.le_uint(S.sub(R, 4, 8))), st.get("size") is None) if "size" in st else Not(sized)
         return And(fr, len(sr) == 1 and S.bytes_are(sr[0], [0xA3, 0, 0, 0, 0, 0, 0, 0]),
-                   Iff(st["crc_supported"], compare("!=", binop("&", c, 4), 0)), size_ok, S.eq(st["_ackseq"], 0),
+                   Iff(st.get("crc_supported", False), compare("!=", binop("&", c, 4), 0)), size_ok, S.eq(st["_ackseq"], 0),
                    S.eq(st["pos"], 0), Not(st["_done"]), Not(st["_error"]), S.eq(st["_crc"].fields["_value"], 0))
 
     ensures = {"initiate-and-start-frames_checks": lambda s: BuInit.ok(s)}
